@@ -1,9 +1,9 @@
 (* C06 -- Synced writes survive power loss through rollover, compaction and recovery.
-   PARTIAL in one respect: the theorems cover every history of Put / Delete / Sync / compaction pick
-   and micro-steps (with rollover, both sync modes) from a state with nothing pending, but not a
-   history that contains a recovering Open between the durable starting point and the power
-   failure; that part (an earlier recovery) is covered by the harness only (it found defect D13). *)
-From Pogreb Require Import Base Flat Spec DB DBInv DBProofsCrash PowerLoss ShapeCheck.
+   First the single-epoch theorem (PowerLoss.v); then, at the end of this file, the theorems over
+   histories of any number of epochs separated by process crashes (at any event, torn writes
+   included) with recovering Opens that may die themselves, kills, and Close / reopen
+   (PowerLoss2.v): the sync point may lie before any number of recoveries (defect D13 was there). *)
+From Pogreb Require Import Base Flat Spec DB DBInv DBProofsCrash PowerLoss PowerLoss2 ShapeCheck.
 
 (* a segment is flushed when it becomes full (rollover seals through sealSegment, which syncs);
    compaction flushes the current segment before it removes a source segment *)
@@ -38,3 +38,36 @@ Print Assumptions C06_synced_writes_survive_power_loss.
 Definition C06_seal_without_sync_refuted := seal_without_sync_refuted.
 Definition C06_remove_before_sync_refuted := remove_before_sync_refuted.
 Definition C06_nonvacuous_example := C06_nonvacuous.
+
+(* Histories [mrun] of epochs: MOps os (Put / Delete / Sync / compaction micro-steps) | MCrash o (the
+   process dies inside step o, at any event or in the middle of a write; recovery attempts that die
+   themselves; then a recovering Open) | MKill | MClose (Close and clean Open).  The power fails after
+   any event at which the lock file exists ([hcut]); [plh] = the power-loss model over the chunked
+   history; [after c mh c'] = c' is c followed by a prefix of a linearisation of the later operations
+   in which each operation that was in flight at a process crash is counted or not (the crash
+   contract of C03/C04). *)
+Theorem C06_synced_writes_survive_through_recoveries :
+  forall P seed cf0 mh0 K0 cfa osync cf1 mh K cf' Kcut L' img',
+  params_ok P -> XOpen P cf0 ->
+  mrun P cf0 mh0 K0 cfa -> xstep P cfa osync cf1 -> sync_point P osync ->
+  mrun P cf1 mh K cf' -> hcut Kcut K -> d_lock (hrun Kcut (s_disk (fst cf1))) = true ->
+  plh fnone (s_disk (fst cf0)) (K0 ++ CE (s_trace (fst cf1)) :: Kcut) L' img' ->
+  exists s2, db_open flat_ops P seed (closed img') = (s2, OOpened true) /\ Inv P s2 /\ s_mem s2 <> None /\
+    after (cont (s_disk (fst cf1))) mh (cont (s_disk s2)).
+Proof. exact C06_with_recovery. Qed.
+Print Assumptions C06_synced_writes_survive_through_recoveries.
+
+(* the power fails in the middle of a recovering Open that follows a process crash *)
+Theorem C06_power_loss_during_a_recovery :
+  forall P seed seed' cf0 mh0 K0 cfa osync cf1 mh K cfb o cfx Kc cimg p q L' img',
+  params_ok P -> XOpen P cf0 ->
+  mrun P cf0 mh0 K0 cfa -> xstep P cfa osync cf1 -> sync_point P osync ->
+  mrun P cf1 mh K cfb -> xstep P cfb o cfx -> cutof (s_disk (fst cfb)) (s_trace (fst cfx)) Kc cimg ->
+  s_trace (fst (db_open flat_ops P seed' (closed cimg))) = p ++ q ->
+  plh fnone (s_disk (fst cf0)) (K0 ++ CE (s_trace (fst cf1)) :: K ++ Kc ++ [CE p]) L' img' ->
+  exists s2, db_open flat_ops P seed (closed img') = (s2, OOpened true) /\ Inv P s2 /\ s_mem s2 <> None /\
+    after (cont (s_disk (fst cf1))) (mh ++ [MCrash o]) (cont (s_disk s2)).
+Proof. exact C06_power_loss_during_recovery. Qed.
+Print Assumptions C06_power_loss_during_a_recovery.
+
+Definition C06_with_recovery_example := C06_with_recovery_nonvacuous.
